@@ -14,3 +14,16 @@ pub(crate) fn to_key<const N: usize>(
     }
     key_bytes.as_ref().try_into().map_err(|_| msg.into())
 }
+
+/// The 32-byte key of the `pfx` mode. The two 16-byte halves key two independent ciphers and must differ
+/// (`IpcryptPfx::new` asserts it), so equal halves are rejected here like a key of the wrong length.
+pub(crate) fn to_pfx_key(key: Value, ip_ver: &str) -> Result<[u8; 32], ExpressionError> {
+    let key = to_key::<32>(key, "pfx", ip_ver)?;
+    if key[..16] == key[16..] {
+        return Err(format!(
+            "pfx mode requires the two 16-byte halves of the key to be different for {ip_ver}"
+        )
+        .into());
+    }
+    Ok(key)
+}
